@@ -236,9 +236,15 @@ def aggregate(prop, results, extra_args=(), crash_owner_fn=None, any_prop=False)
         inconc += r["inconclusive"]
         if r.get("budget_exhausted"):
             stats["configs_stopped_after_many_events"] = stats.get("configs_stopped_after_many_events", 0) + 1
+    opstates = set()
+    for (_, c) in cells:
+        parts = c.split("/")
+        if len(parts) >= 2:
+            opstates.add(parts[0] + "/" + parts[1])
     cov = {
         "evaluations": calls,
         "distinct_nontrivial": len(cells),
+        "_opstates": opstates,
         "histories_completed": hist,
         "monitored_calls_in_nontrivial_cells": cellcount,
         "histories_cut_short_by_other_properties_monitors": foreign,
